@@ -150,7 +150,8 @@ def recDiff (a h : Req) : List String :=
   (if a.version = 5 ∨ a.parse = .err ∨ a.reft = h.reft then [] else ["reft"]) ++
   (if a.untrusted = h.untrusted then [] else ["U"]) ++ (if a.auth = h.auth then [] else ["A"]) ++
   (if a.enc = h.enc then [] else ["E"]) ++ (if a.cookie = h.cookie then [] else ["ck"]) ++
-  (if a.mac = h.mac then [] else ["mac"]) ++ (if a.draftOk = h.draftOk then [] else ["dok"])
+  (if a.mac = h.mac then [] else ["mac"]) ++ (if a.draftOk = h.draftOk then [] else ["dok"]) ++
+  (if a.parse = .err ∨ a.encw = h.encw then [] else ["encw"])
 
 def stepLine (st : St) (line : String) : St × String :=
   let ws := words line
@@ -190,7 +191,7 @@ def stepLine (st : St) (line : String) : St × String :=
       let fv := match bytes with
         | [] => 0
         | b0 :: _ => (b0.toNat / 8) % 8
-      let own := reqOf (Wire.Table.decrypt table) st.ks bytes fv hreq.encw
+      let own := reqOfB (Wire.Table.decrypt table) st.ks bytes fv
       let d := recDiff own hreq
       let flag := if d.isEmpty then "" else "record-mismatch:" ++ ",".intercalate d ++ " "
       ({ st with table := table }, flag ++ outLine st env own)
